@@ -597,8 +597,14 @@ impl Locale {
                 subkeys.merge_plurals_tracked(locale.clone(), key_path, plural_keys, warnings)?;
                 key_path.pop_key();
             }
-            if let Some((base_key, rule_type, plural_form)) = Self::is_possible_plural(&key, &value)
-            {
+            // an explicit default (`null`) is not a plural form: `key_one: null` stays a plain defaulted key,
+            // a `Default` inside a `Plurals` can't be rendered.
+            let possible_plural = if matches!(value, ParsedValue::Default) {
+                None
+            } else {
+                Self::is_possible_plural(&key, &value)
+            };
+            if let Some((base_key, rule_type, plural_form)) = possible_plural {
                 let plurals = possible_plurals.entry(base_key.to_owned()).or_default();
                 plurals.push((plural_form, key, rule_type, value));
             } else {
@@ -682,7 +688,7 @@ impl Locale {
             }
             let plural_key = match Self::is_possible_plural(&key, &value) {
                 Some((base_key, rule_type, PluralForm::Other))
-                    if !matches!(value, ParsedValue::Plurals(_)) =>
+                    if !matches!(value, ParsedValue::Plurals(_) | ParsedValue::Default) =>
                 {
                     Key::new(base_key).map(|base_key| (base_key, rule_type))
                 }
